@@ -27,9 +27,9 @@ G(name, args) == [k |-> "gate", v |-> name, cls |-> "?", args |-> args]
 Let(nm) == [k |-> "let", v |-> nm]
 Par(nm) == [k |-> "param", v |-> nm]
 RegA(nm) == [k |-> "reg", v |-> nm]
-QAl(nm) == [k |-> "qalias", v |-> nm]
-Qb(r, ixx) == [k |-> "qubit", base |-> [k |-> "reg", v |-> r], idx |-> ixx]
-QbP(p, ixx) == [k |-> "qubit", base |-> [k |-> "param", v |-> p], idx |-> ixx]
+QAl(nm) == [k |-> "qalias", v |-> nm, res |-> NoRes]
+Qb(r, ixx) == [k |-> "qubit", base |-> [k |-> "reg", v |-> r], idx |-> ixx, res |-> NoRes]
+QbP(p, ixx) == [k |-> "qubit", base |-> [k |-> "param", v |-> p], idx |-> ixx, res |-> NoRes]
 QI(r, n) == Qb(r, NumI(n))
 OSeq == [k |-> "seq"]
 OPar == [k |-> "par"]
